@@ -15,6 +15,7 @@ import json
 import math
 import os
 from .. import core
+from . import _gen
 
 SIZE_MAX = (1 << 64) - 1
 ENVS = [None, "0", "1", "50000", "65536", "90000", "100000", "150000", "300000", "1000000"]
@@ -441,6 +442,7 @@ def shrink(exe, drv, env, lines, want_oracle, pagesize):
 def run(ctx):
     rng = ctx.rng
     quick = ctx.tier == "quick"
+    _gen.regen(ctx, ["Mpool"])      # Gen/Mpool.v regenerated from the source + Properties_Gen_C14.v (tools/ctrans.py)
     pr = ctx.coq_properties("Properties/Properties_C14.v")
     exe = ctx.link("c14_mpool", ["c14_mpool.c"], exclude=["mpool.c"])
     drv = ctx.model_driver("c14_driver")
